@@ -31,10 +31,10 @@ type lockInfo struct {
 
 type lockset uint32 // bit 2*idx = held exclusively (Lock), bit 2*idx+1 = held shared (RLock)
 
-func (l lockset) has(c *lockClass) bool   { return l&(3<<(2*uint(c.idx))) != 0 }
-func (l lockset) hasW(c *lockClass) bool  { return l&(1<<(2*uint(c.idx))) != 0 }
-func bitW(c *lockClass) lockset           { return 1 << (2 * uint(c.idx)) }
-func bitR(c *lockClass) lockset           { return 2 << (2 * uint(c.idx)) }
+func (l lockset) has(c *lockClass) bool  { return l&(3<<(2*uint(c.idx))) != 0 }
+func (l lockset) hasW(c *lockClass) bool { return l&(1<<(2*uint(c.idx))) != 0 }
+func bitW(c *lockClass) lockset          { return 1 << (2 * uint(c.idx)) }
+func bitR(c *lockClass) lockset          { return 2 << (2 * uint(c.idx)) }
 func (li *lockInfo) names(l lockset) string {
 	var out []string
 	for _, c := range li.classes {
@@ -273,10 +273,10 @@ type retInfo struct {
 }
 
 type lockAnalysis struct {
-	li      *lockInfo
-	res     map[fnCtx]*ctxResult
-	ctxsOf  map[*ssa.Function][]fnCtx
-	roots   []*ssa.Function
+	li         *lockInfo
+	res        map[fnCtx]*ctxResult
+	ctxsOf     map[*ssa.Function][]fnCtx
+	roots      []*ssa.Function
 	unresolved []string
 }
 
